@@ -11,6 +11,7 @@ class C18:
     def __init__(self):
         self.hist = None
         self.ghost = {}
+        self.blocked = {}   # recipient -> senders it named in BlockSenders messages the chain accepted
 
     def __call__(self, rec):
         if rec.get("mod") != "notif":
@@ -18,6 +19,14 @@ class C18:
         if rec["hist"] != self.hist:
             self.hist = rec["hist"]
             self.ghost = {}
+            self.blocked = {}
+            # what the chain started with (genesis records) was sent before the history began
+            for key, e in rec["pre"]["store"]:
+                if "notif" in e:
+                    n = e["notif"]["n"]
+                    self.ghost.setdefault(n["to"], set()).add((n["to"], n["sender"], n["time"], n["contents"], n["priv"]))
+                elif "block" in e:
+                    self.blocked.setdefault(e["block"]["owner"], set()).add(e["block"]["blocked"])
         out = []
         k, v = opk(rec)
         if not rec["ok"] and rec["pre"] != rec["post"]:
@@ -28,6 +37,9 @@ class C18:
             for key, e in rec["pre"]["store"]:
                 if "block" in e and e["block"]["owner"] == to and e["block"]["blocked"] == v["creator"]:
                     out.append({"sig": {"prop": "C18", "kind": "blocked-sender-delivered"}, "what": f"{v['creator']} is blocked by {to} but its notification was accepted"})
+            if v["creator"] in self.blocked.get(to, set()):
+                out.append({"sig": {"prop": "C18", "kind": "blocked-sender-delivered", "by": "accepted-block-messages"},
+                            "what": f"{to} named {v['creator']} in a BlockSenders message the chain accepted, yet {v['creator']}'s notification was delivered"})
             n = (to, v["creator"], rec["now"], v["contents"], v["priv"])
             self.ghost.setdefault(to, set())
             same = [g for g in self.ghost[to] if g[1] == n[1] and g[2] == n[2]]
@@ -35,6 +47,11 @@ class C18:
                 out.append({"sig": {"prop": "C18", "kind": "second-send-accepted-same-key"},
                             "what": f"two sends {v['creator']} -> {to} at time {rec['now']} both reported delivered; the inbox can hold one"})
             self.ghost[to].add(n)
+        if rec["ok"] and k == "block":
+            for t in v.get("targets", []):
+                res = t[1] if isinstance(t, list) and len(t) > 1 else None
+                if isinstance(res, str) and res:
+                    self.blocked.setdefault(v["creator"], set()).add(res)
         if rec["ok"] and k == "delete":
             c = v["creator"]
             frm = "/".join(v["senderSegs"])
